@@ -379,7 +379,8 @@ def main(argv=None):
         print(f'KNOWN-FINDING: property={prop} {text} [{sname}: {n} case(s)]')
     if all_viol:
         rc = 1
-        vdir = os.path.join(HERE, 'violations', prop)
+        # trial runs against a scratch worktree keep their artefacts apart from those of /repo
+        vdir = os.path.join(HERE if REPO == '/repo' else '/var/tmp/pbbss_trial', 'violations', prop)
         os.makedirs(vdir, exist_ok=True)
         for sname, v in all_viol[:MAX_VIOLATION_FILES]:
             art = dict(property=prop, sub=sname, key=v['key'], seed=seed, tier=tier,
